@@ -12,7 +12,7 @@ T5 text and binary formatters accept the same conversions, and the binary
 """
 import os
 import re
-from ..cfg import Facts, kids, strip, walk, cv, render, short_loc, call_args, TRANSPARENT, switch_sections
+from ..cfg import xrender, norm_facts, expand_locals, Facts, kids, strip, walk, cv, render, short_loc, call_args, TRANSPARENT, switch_sections
 from ..facts import export_many, export, AnalysisBroken
 from .. import units
 
@@ -927,7 +927,7 @@ def bound_record_rule(rep, F, FW):
         raise AnalysisBroken("ReadBounds: only %d bound codes decoded" % len(decode))
 
     def cond(n, cls):
-        n = strip(n)
+        n = strip(expand_locals(w, n))
         if n["k"] == "UnaryOperator" and n.get("op") == "!":
             return not cond(kids(n)[0], cls)
         if n["k"] == "BinaryOperator" and n.get("op") in ("&&", "||"):
@@ -955,6 +955,9 @@ def bound_record_rule(rep, F, FW):
         if s is None or out:
             return
         k = s["k"]
+        if k == "ReturnStmt":
+            out.append(None)             # left the function without a record
+            return
         if k == "CompoundStmt":
             for x in kids(s):
                 run_stmt(x, cls, out)
@@ -968,7 +971,7 @@ def bound_record_rule(rep, F, FW):
             for c in walk(s):
                 if c["k"] in ("CallExpr", "CXXMemberCallExpr") and (c.get("callee") or "").split("::")[-1] == "apr":
                     a = call_args(c)
-                    out.append((fmt_of(a[1], cls), [render(x).replace(" ", "") for x in a[2:]], c))
+                    out.append((fmt_of(a[1], cls), [xrender(w, x).replace(" ", "") for x in a[2:]], c))
                     return
 
     body = [x for x in w.roots if x is not None and x["k"] == "CompoundStmt"]
@@ -978,6 +981,7 @@ def bound_record_rule(rep, F, FW):
     for cname, cls in classes:
         out = []
         run_stmt(body[-1], cls, out)
+        out = [o_ for o_ in out if o_ is not None]
         if not out:
             t7.fail("class|%s" % cname, short_loc(w.loc), "no record is printed for the class %s" % cname)
             continue
